@@ -63,11 +63,16 @@ def _attr_history_run(pid, tier, seed, kinds, count_q, count_t, pred, rule, cfg_
         h = H.gen_history(rng, n, max_len=_sizes(tier, *max_len), kinds=kinds)
         cases.append({"rules": rules, "config": cfg, "history": h, "attr": True, "pipe": pipe, "sym": sym,
                       "nomodel": any(o[0] in ("scc", "build") for o in h)})
-    pre = load_corpus(pid)
+    pre = [c for c in load_corpus(pid) if not c.get("filter_direct")]
     for c in pre:
         c["attr"] = True; c.setdefault("pipe", pipe); c.setdefault("sym", sym)
     for c in cases:
         c["history"] = list(c["history"]) + list(final_ops)
+    for c in pre + cases:
+        h_ = [tuple(o) for o in c["history"]]
+        if pid == "C05" and h_ and h_[-1][0] == "seeds_every" and len(h_[-1]) == 1 and not c.get("nomodel") \
+                and not any(o[0] in ("cands", "seeds", "sets", "seeds_all", "sets_all", "seeds_every", "block", "scc", "aseeds", "build") for o in h_[:-1]):
+            c["skiprule_model"] = True
     cases = pmap(P._fix_worker, pre + cases)
     ws = pmap(P._case_worker, cases)
     viol = harness_errors(ws, pid)
@@ -81,6 +86,21 @@ def _attr_history_run(pid, tier, seed, kinds, count_q, count_t, pred, rule, cfg_
         stats["raised_runtime"] += sum(1 for s in w["steps"] if s["real_result"] == "raised:runtime")
         msgs = pred(w)
         diffs = corr_diffs(w)
+        if w.get("skiprule_model") and not diffs and w["steps"][-1]["real_result"] == "unit":
+            # the code's seeds on every node vs SkipRule.query_order (ideal engine) on the model's diagram
+            stats["skiprule_model_compared"] = stats.get("skiprule_model_compared", 0) + 1
+            items = {it["id"]: it for it in w["steps"][-1]["meta"].get("attr", [])}
+            real_counts = ",".join(str(len(items[i]["seeds"])) if i in items and "seeds" in items[i] else "-" for i in range(len(items)))
+            allseeds = [x for it in items.values() for x in it.get("seeds", [])]
+            real_lost = sum(1 for a in w["attractors"] if not any(x in a for x in allseeds))
+            mc = dict(kv.split("=") for kv in w["skiprule_model"].split(" "))
+            if mc["counts"] != real_counts or int(mc["lost"]) != real_lost:
+                stats["skiprule_model_differs"] = stats.get("skiprule_model_differs", 0) + 1
+                if not msgs:
+                    viol.append({"property": pid, "signature": f"{pid}:correspondence:skiprule-model", "what": f"seeds per node {real_counts} (lost {real_lost}) differ from SkipRule.query_order: {w['skiprule_model']}",
+                                 "case": w["case"], "failing_input": False, "theorem_or_correspondence": "SkipRule.query_order (ideal engine + documented exclusion rule) vs node_attractor_seeds on every node"})
+            elif int(mc["lost"]) > 0:
+                stats["skiprule_model_lost_agree"] = stats.get("skiprule_model_lost_agree", 0) + 1
         pv, pcorr = pipe_violations(w) if pipe else ([], [])
         msgs = msgs + pv
         stats["symbolic_test_calls_checked"] = stats.get("symbolic_test_calls_checked", 0) + w.get("sym_calls", 0)
@@ -99,6 +119,101 @@ def _attr_history_run(pid, tier, seed, kinds, count_q, count_t, pred, rule, cfg_
     good = [w for w in ws if not w.get("error")]
     return {"evaluations": len(cases), "distinct_nontrivial": summarize(ws, lambda w: len(w["verdicts"]) > 0 and len(w["attractors"]) > 0),
             "rule": rule, "samples": [sample_of(w) for w in good[:3]], "violations": viol, "extra": {"stats": stats, "corpus_cases": len(pre)}}
+
+# ---------------------------------------------------------------- direct differential run of the exact filter (C01 / C12)
+def _filter_worker(case):
+    """compute_attractors_symbolic called directly with adversarial candidate lists (several candidates per attractor,
+    transient states, every order) vs Filter.compute_attractors_filter: seeds in order and sets must be identical"""
+    import signal
+    signal.signal(signal.SIGALRM, P._alarm); signal.alarm(P.CASE_TIMEOUT)
+    try:
+        from biobalm._sd_attractors.attractor_symbolic import compute_attractors_symbolic
+        rules = case["rules"]
+        sd = make_sd(rules, {}); nm = var_names(sd); n = len(nm); tabs = tables_of(sd)
+        for op in case["history"]:
+            _, _, sd = H.apply_real(sd, tuple(op), nm)
+        rng = random.Random(case["seed"])
+        node = rng.randrange(len(sd))
+        nd = sd.node_data(node)
+        if nd["skipped"]:
+            return {"case": case, "msgs": [], "error": None, "skipped": True}
+        space = sp2s(nd["space"], nm)
+        motifs = []
+        if nd["expanded"]:
+            motifs = [sp2s({**nd["space"], **sd.edge_stable_motif(node, c, reduced=True)}, nm) for c in sd.node_successors(node)]
+        m = Model(n, tabs)
+        m.add(f"nodeattr {space} {';'.join(motifs) or '-'}")
+        attrs = parse_attractors(m.run()[0])
+        def inside(st, sp):
+            return all(c == "*" or c == x for c, x in zip(sp, st))
+        cands = []
+        for a in attrs:
+            for st in rng.sample(a, min(len(a), rng.choice([1, 1, 2, 3]))):
+                cands.append(st)
+        free = [i for i, c in enumerate(space) if c == "*"]
+        for _ in range(rng.randint(0, 3)):             # arbitrary further states of the node outside the child motifs
+            st = list(space)
+            for i in free:
+                st[i] = rng.choice("01")
+            st = "".join(st)
+            if not any(inside(st, mo) for mo in motifs):
+                cands.append(st)
+        cands = list(dict.fromkeys(cands))
+        rng.shuffle(cands)
+        if not cands:
+            return {"case": case, "msgs": [], "error": None, "skipped": True}
+        seeds_only = rng.random() < 0.4
+        m = Model(n, tabs)
+        m.add(f"filter {int(seeds_only)} {';'.join(motifs) or '-'} {','.join(cands)}")
+        mo = m.run()[0]
+        mseeds, msets = mo.split(" ")
+        mseeds = parse_states(mseeds[len("seeds="):]); msets = msets[len("sets="):]
+        real_seeds, real_sets = compute_attractors_symbolic(sd, node, [{v: int(c) for v, c in zip(nm, st)} for st in cands], seeds_only=seeds_only)
+        rseeds = [sp2s(x, nm) for x in real_seeds]
+        if real_sets is None:
+            rsets = "none"
+        else:
+            out = []
+            for vs in real_sets:
+                sts = sorted("".join(str(int(mdl.to_dict()[v])) for v in sd.symbolic.network_variables()) for mdl in vs.items())
+                out.append(",".join(sts))
+            rsets = "/".join(out) or "-"
+        msgs = []
+        if rseeds != mseeds:
+            # which attractor is hit how often?
+            hits = [sum(1 for x in rseeds if x in a) for a in attrs]
+            msgs.append(("filter-seeds", f"node {node} ({space}), candidates {cands}, seeds_only={seeds_only}: compute_attractors_symbolic returned seeds {rseeds}, the model {mseeds}; seeds per attractor of the node: {hits} (must be 1 each)"))
+        elif rsets != msets:
+            msgs.append(("filter-sets", f"node {node} ({space}), candidates {cands}: attractor sets differ from the model ({rsets[:200]} vs {msets[:200]})"))
+        return {"case": case, "msgs": msgs, "error": None, "ncands": len(cands), "nattr": len(attrs), "multi": any(sum(1 for c in cands if c in a) > 1 for a in attrs)}
+    except P.CaseTimeout:
+        return {"case": case, "error": None, "timeout": True, "msgs": []}
+    except Exception:
+        return {"case": case, "error": traceback.format_exc()}
+    finally:
+        signal.alarm(0)
+
+def filter_direct_run(pid, tier, seed, count_q, count_t, pre=()):
+    rng = random.Random(seed + 77)
+    cases = []
+    for _ in range(_sizes(tier, count_q, count_t)):
+        rules = gen_network(rng, 2, _sizes(tier, 6, 7))
+        n = len(rules.splitlines())
+        h = H.gen_history(rng, n, max_len=3, kinds=("expand", "bfs", "dfs", "min")) if rng.random() < 0.6 else []
+        cases.append({"rules": rules, "history": [list(o) for o in h], "seed": rng.randrange(10**9)})
+    cases = [dict(c, history=[list(o) for o in f["history"]]) for c, f in zip(cases, pmap(P._fix_worker, [dict(c, config={}, nomodel=True) for c in cases]))]
+    cases = [dict(c) for c in pre] + cases
+    ws = pmap(_filter_worker, cases)
+    viol = harness_errors(ws, pid)
+    for w in ws:
+        if w.get("error") or w.get("timeout"):
+            continue
+        for sig, msg in w["msgs"][:1]:
+            viol.append({"property": pid, "signature": f"{pid}:{sig}", "what": msg, "case": dict(w["case"], filter_direct=True), "failing_input": True})
+    good = [w for w in ws if not w.get("error") and not w.get("timeout") and not w.get("skipped")]
+    stats = {"filter_direct_cases": len(good), "filter_direct_with_several_candidates_in_one_attractor": sum(1 for w in good if w.get("multi")),
+             "filter_direct_candidates_total": sum(w.get("ncands", 0) for w in good)}
+    return viol, stats
 
 @register("C14")
 def run_C14(tier, seed):
@@ -122,11 +237,14 @@ def run_C01(tier, seed):
             st = ("aseeds", None)
         model_ok = st[0] in ("bfs", "dfs", "block", "aseeds")
         cases.append({"rules": rules, "config": {}, "history": [st, ("seeds_all",)], "attr": True, "nomodel": not model_ok, "global_seeds": True})
-    cases = load_corpus("C01") + cases
+    corpus = load_corpus("C01")
+    cases = [c for c in corpus if not c.get("filter_direct")] + cases
     cases = pmap(P._fix_worker, cases)
     ws = pmap(P._case_worker, cases)
     viol = harness_errors(ws, "C01")
     stats = {"strategies": {}, "with_complex_attractor": 0, "with_maa": 0, "attractors_total": 0}
+    fv, fstats = filter_direct_run("C01", tier, seed, 200, 3000, pre=[c for c in corpus if c.get("filter_direct")])
+    viol += fv; stats.update(fstats)
     for w in ws:
         if w.get("error"):
             continue
@@ -224,6 +342,9 @@ def run_C12(tier, seed):
     res = _attr_history_run("C12", tier, seed, tuple(k if k != "seedsfb" else "seeds" for k in kinds), 300, 5000, pred,
         "random histories requesting attractor sets before/after seeds and candidates, after reclamation and pickling, on expanded, unexpanded and skip nodes; a third of the cases run with attractor_candidates_limit=1 so that seeds(symbolic_fallback=True) takes the fully symbolic fallback; every cached set list must be, in seed order, the complete attractors of the seeds (Checks.check_sets) and every seed list one-to-one with the brute-force attractors of the node, so fallback and default method agree through the common oracle; non-trivial = at least one cached item checked",
         cfg_gen=cfg_gen_c12, sym=True)
+    fv, fstats = filter_direct_run("C12", tier, seed, 200, 3000, pre=[c for c in load_corpus("C12") if c.get("filter_direct")])
+    res["violations"] += fv
+    res["extra"].setdefault("stats", {}).update(fstats)
     return res
 
 def _maa_list(w):
